@@ -91,6 +91,20 @@ def withPtr (n : Node) (p : Bool) : Node :=
   | slice i e => slice { i with ptr := p } e
 end Node
 
+mutual
+def Node.beq : Node → Node → Bool
+  | .basic a, .basic b => a == b
+  | .struct a ca, .struct b cb => a == b && Node.beqList ca cb
+  | .map a k1 v1, .map b k2 v2 => a == b && Node.beq k1 k2 && Node.beq v1 v2
+  | .slice a e1, .slice b e2 => a == b && Node.beq e1 e2
+  | _, _ => false
+def Node.beqList : List Node → List Node → Bool
+  | [], [] => true
+  | a :: as, b :: bs => Node.beq a b && Node.beqList as bs
+  | _, _ => false
+end
+instance : BEq Node := ⟨Node.beq⟩
+
 /-- Go values as trees. Integers are unbounded here; every Go conversion is an explicit `wrap`.
 Floats are exact fixed-point numbers in units of 2⁻²⁰ (DESIGN.md 4.2). -/
 inductive Val
